@@ -39,9 +39,8 @@ struct skiplist_node {
 	const char *key;
 	void *value;
 	/* special meaning when lower than SKIPLIST_LEVEL_MIN:
-	   indication that @skiplist_node_destroy() needs to skip
-	   disposing node->forward (unless it is the termination
-	   of the whole list) */
+	   the node has been removed from the list while iterators
+	   were positioned on it, @forward is stale */
 	int8_t level;
 	uint32_t refcount;
 	struct qb_list_head notifier_head;
@@ -54,10 +53,6 @@ struct skiplist {
 	struct qb_map map;
 
 	size_t length;
-	/* special meaning when lower than SKIPLIST_LEVEL_MIN:
-	   indication that @skiplist_node_destroy() is the terminating
-	   one (triggered with @skiplist_destroy()), therefore node->forward
-	   needs to be free'd unconditionally */
 	int8_t level;
 	struct skiplist_node *header;
 };
@@ -246,10 +241,7 @@ skiplist_node_destroy(struct skiplist_node *node, struct skiplist *list)
 		free(tn);
 	}
 
-	if (node->level >= SKIPLIST_LEVEL_MIN
-	    || list->level < SKIPLIST_LEVEL_MIN) {
-		free(node->forward);
-	}
+	free(node->forward);
 	free(node);
 }
 
@@ -367,7 +359,6 @@ skiplist_destroy(struct qb_map *map)
 	struct skiplist_node *cur_node;
 	struct skiplist_node *fwd_node;
 
-	list->level = SKIPLIST_LEVEL_MIN - 1;  /* indicate teardown */
 	for (cur_node = skiplist_node_next(list->header);
 	     cur_node; cur_node = fwd_node) {
 		fwd_node = skiplist_node_next(cur_node);
@@ -490,27 +481,13 @@ skiplist_rm(struct qb_map *map, const char *key)
 	   iterator(s) resumes, possibly causing use-after-free in
 	   @skiplist_node_next().
 
-	   To solve this, we will grab @cur_node->forward, which has just
-	   been updated accordingly in the above statement, copying it
-	   to @found_node->forward, and repointing @cur_node->forward to
-	   point to @found_node's copy (freeing its original list first).
-	   To prevent freeing the pointed memory behind @cur_node's
-	   back from the @found_node's context, we use the fact that the
-	   iterator can only advance to the next node, without re-examination
-	   of the current one, hence we can afford to abuse @found_node->value
-	   as a flag field when set to our private "special" value that under
-	   no normal circumstance can appear (for being link-time singleton).
-
-	   In addition, we have to special-case the beginning of the list
-	   (header) preceding @found_node, which can be distinguished with
-	   NULL being used as a key (second allowing condition below). */
-	if (found_node->refcount > 1 || cur_node->key == NULL) {
-		for (level = SKIPLIST_LEVEL_MIN; level <= found_node->level; level++) {
-			found_node->forward[level] = cur_node->forward[level];
-		}
-		found_node->level = SKIPLIST_LEVEL_MIN - 1;  /* no "forward" drop */
-		free(cur_node->forward);
-		cur_node->forward = found_node->forward;
+	   To solve this, @found_node is marked as removed (a level lower
+	   than SKIPLIST_LEVEL_MIN, nothing looks at the level of a node that
+	   is off the list) and @skiplist_iter_next() continues from such
+	   a node by looking its key up in the list again instead of
+	   following its stale @forward. */
+	if (found_node->refcount > 1) {
+		found_node->level = SKIPLIST_LEVEL_MIN - 1;
 	}
 	skiplist_node_deref(found_node, list);
 
@@ -556,6 +533,24 @@ skiplist_iter_create(struct qb_map *map, const char *prefix)
 	return (qb_map_iter_t *) i;
 }
 
+/*
+ * The first node of @list whose key sorts after @key.
+ */
+static struct skiplist_node *
+skiplist_node_after_key(const struct skiplist *list, const char *key)
+{
+	struct skiplist_node *cur_node = list->header;
+	int8_t level;
+
+	for (level = list->level; level >= SKIPLIST_LEVEL_MIN; level--) {
+		while (cur_node->forward[level] &&
+		       strcmp(cur_node->forward[level]->key, key) <= 0) {
+			cur_node = cur_node->forward[level];
+		}
+	}
+	return cur_node->forward[SKIPLIST_LEVEL_MIN];
+}
+
 static const char *
 skiplist_iter_next(qb_map_iter_t * i, void **value)
 {
@@ -565,7 +560,12 @@ skiplist_iter_next(qb_map_iter_t * i, void **value)
 	if (p == NULL) {
 		return NULL;
 	}
-	si->n = skiplist_node_next(p);
+	if (p->level < SKIPLIST_LEVEL_MIN) {
+		/* removed while we were positioned on it */
+		si->n = skiplist_node_after_key((struct skiplist *)i->m, p->key);
+	} else {
+		si->n = skiplist_node_next(p);
+	}
 	if (si->n == NULL) {
 		skiplist_node_deref(p, (struct skiplist *)i->m);
 		return NULL;
